@@ -133,16 +133,16 @@ def strat_near_twins_(draw, tier):
 
 @st.composite
 def strat_verylong_(draw, tier):
-    """Windows of 33..48 samples on traces of 50..90 samples drawn from very few distinct values (exact ties inside one window)."""
+    """Windows of 33..48 (sometimes 63..129) samples on traces of 50..170 samples drawn from very few distinct values (exact ties inside one window)."""
     p = _profile(tier, max_depth=2, nvars=2)
     f, vs = draw(F.formulas(p))
-    b = draw(st.integers(33, 48))
+    b = draw(st.sampled_from(list(range(33, 49)) + [63, 64, 65, 66, 70, 96, 127, 128, 129]))
     a = draw(st.sampled_from([0, 0, 1, 5, b]))
     ops = ['once', 'historically'] + (['eventually', 'always'] if PROPERTY == 'C01' else [])
     f = ('tun', draw(st.sampled_from(ops)), min(a, b), b, f)
     if draw(st.booleans()):
         f = ('un', 'not', f)
-    n = draw(st.integers(50, 90))
+    n = max(50, b + 2) + draw(st.integers(0, 40))
     vals = st.sampled_from([0.0, 1.0, -1.0, 2.0, 5.0, -3.0])
     tr = {v: draw(st.lists(vals, min_size=n, max_size=n)) for v in vs}
     return {'formula': f, 'vars': vs, 'trace': tr}
